@@ -57,6 +57,7 @@ func (e *enc) call(b *ssa.BasicBlock, c *ssa.Call) {
 			ex := map[string]cval{}
 			if tt, isTuple := c.Type().(*types.Tuple); isTuple {
 				for i := 0; i < tt.Len(); i++ {
+					e.callResults[fmt.Sprintf("%s#%d.%d", k, e.callOrd[k], i)] = cval{fmt.Sprintf("%s.c%d", n, i), e.sortOf(tt.At(i).Type()), tt.At(i).Type()}
 					ex[fmt.Sprintf("result.%d", i)] = cval{fmt.Sprintf("%s.c%d", n, i), e.sortOf(tt.At(i).Type()), tt.At(i).Type()}
 				}
 				if tt.Len() > 0 {
@@ -118,7 +119,7 @@ func (e *enc) callCommon(b *ssa.BasicBlock, ins ssa.Instruction, cc *ssa.CallCom
 				return
 			}
 		}
-		e.callOrd[key]++
+		e.callOrd[key] = e.ordOf(ins, key)
 		e.countCall(key)
 		e.siteAsserts(ins, fmt.Sprintf("call %d of %s", e.callOrd[key], key), cc.Method.Type().(*types.Signature), append([]string{recv}, args...), R)
 		if fc := e.w.CS.Ifaces[key]; fc != nil {
@@ -135,7 +136,7 @@ func (e *enc) callCommon(b *ssa.BasicBlock, ins ssa.Instruction, cc *ssa.CallCom
 	callee := cc.StaticCallee()
 	if callee == nil {
 		fv := e.val(cc.Value)
-		e.callOrd["dynamic"]++
+		e.callOrd["dynamic"] = e.ordOf(ins, "dynamic")
 		e.countCall("dynamic")
 		if sig, ok := cc.Value.Type().Underlying().(*types.Signature); ok {
 			e.siteExtra = map[string]cval{"callee": {fv, e.sortOf(cc.Value.Type()), cc.Value.Type()}}
@@ -149,7 +150,7 @@ func (e *enc) callCommon(b *ssa.BasicBlock, ins ssa.Instruction, cc *ssa.CallCom
 		return
 	}
 	key := funcKey(callee)
-	e.callOrd[key]++
+	e.callOrd[key] = e.ordOf(ins, key)
 	e.countCall(key)
 	e.siteAsserts(ins, fmt.Sprintf("call %d of %s", e.callOrd[key], key), callee.Signature, args, R)
 	if callee.Signature.Recv() != nil && len(args) > 0 && callee.Pkg != nil && e.w.InRepo[callee.Pkg] {
@@ -1005,4 +1006,58 @@ func (e *enc) ioCallCheck(ins ssa.Instruction, key string, callee *ssa.Function,
 	}
 	o := e.addI("frame", "io:"+key, ins, R, "false")
 	o.Note = "call of a file/network function that the contract does not allow"
+}
+
+// ordOf: the ordinal of a call site among the calls of the same callee in this function, in source
+// order (position in the file; instructions without position keep their SSA order after the others).
+func (e *enc) ordOf(ins ssa.Instruction, key string) int {
+	if e.siteOrd == nil {
+		e.siteOrd = map[ssa.Instruction]int{}
+		type site struct {
+			ins ssa.Instruction
+			pos token.Pos
+			seq int
+		}
+		by := map[string][]site{}
+		seq := 0
+		for _, b := range e.f.Blocks {
+			for _, i := range b.Instrs {
+				ci, ok := i.(ssa.CallInstruction)
+				if !ok {
+					continue
+				}
+				if _, isB := ci.Common().Value.(*ssa.Builtin); isB {
+					continue
+				}
+				k := e.callKeyOf(ci.Common())
+				seq++
+				p := i.Pos()
+				if d, ok := i.(*ssa.Defer); ok {
+					p = d.Pos()
+				}
+				by[k] = append(by[k], site{i, p, seq})
+			}
+		}
+		for _, ss := range by {
+			sort.SliceStable(ss, func(a, b int) bool {
+				pa, pb := ss[a].pos, ss[b].pos
+				if pa.IsValid() != pb.IsValid() {
+					return pa.IsValid()
+				}
+				if pa != pb {
+					return pa < pb
+				}
+				return ss[a].seq < ss[b].seq
+			})
+			for n, st := range ss {
+				e.siteOrd[st.ins] = n + 1
+			}
+		}
+	}
+	if n, ok := e.siteOrd[ins]; ok {
+		return n
+	}
+	// (deferred calls are re-encoded where the defers run: same instruction, same ordinal)
+	e.callOrd[key]++
+	return e.callOrd[key]
 }
